@@ -160,7 +160,7 @@ def run(ctx):
         else:
             f7 = "(if f7q_query %d %s %s %s then 4 else 0)" % (FUEL, pn, qn, cn)
             names = [pn, qn, cn]
-        exprs.append((names, "((if f14_class %s %s then 1 else 0) + (if f1_class %s %s then 2 else 0) + %s)%%N" % (pn, qn, pn, qn, f7)))
+        exprs.append((names, "((if f14_class %s %s then 1 else 0) + (if f1_class %s %s then 2 else 0) + %s + (if f1_class_wide %s %s then 8 else 0))%%N" % (pn, qn, pn, qn, f7, pn, qn)))
         meta.append((k, None, "frag"))
         meta.append((k, None, "class"))
         for sname in ("slg", "rec"):
@@ -206,13 +206,16 @@ def run(ctx):
             class_items["F14"] += 1
         if in_f1:
             class_items["F1"] += 1
+        if cls[k] & 8:
+            class_items["F1-previous-wide-definition"] += 1
         if c == logic.V_INCON:
             not_judged["oracle-inconclusive"] += 1
         if c is not None and c >= 10:
             f = ctx.match_known(it.key())
             if not f and sname == "slg" and in_f14 and c == 11 and kind == "Unique":
                 f = ctx.match_known(None, "F14")
-            if not f and sname == "slg" and in_f1 and c == 12 and kind == "AmbigDefinite":
+            if not f and sname == "slg" and in_f1 and c == 12 and kind == "AmbigDefinite" and sc.guidance_repeats(ans):
+                # input in the class AND the concrete symptom: SLG, definite guidance that itself repeats a bound variable, "solution not covered"
                 f = ctx.match_known(None, "F1")
             if not f and sname == "slg" and in_f7q and c == 13 and kind == "NoSolution":
                 f = ctx.match_known(None, "F7q")
@@ -235,7 +238,9 @@ def run(ctx):
                                      "items_in_known_class": dict(class_items), "max_candidates": max_cands}
     ctx.cov["inconclusive"] = dict(not_judged)
     ctx.cov["inconclusive_total"] = sum(not_judged.values())
-    ctx.cov["known_class_share"] = round(sum(class_items.values()) / judged, 4)
+    ctx.cov["known_class_share"] = round(sum(v for k_, v in class_items.items() if not k_.endswith("definition")) / judged, 4)
+    ctx.cov["known_class_shares"] = {k_: round(v / judged, 4) for k_, v in class_items.items()}
+    ctx.cov["known_class_forgiven_alarms"] = ctx.cov.get("known_class_hits", 0)
     ctx.cov["phase_s"] = phase
 
 
